@@ -12,14 +12,14 @@ in decimal.  One output line per input line: `ok <values…>`, `valueError`, or 
   snap eta eps sens lower upper            -> bound effectiveEpsilon
   bd eps delta sens diam                   -> scale <iterations>
   bdf eps delta sens diam shape            -> deltaC f
-  erf x                                    -> erf(x)
+  erf x | erfc x                           -> erf(x) | erfc(x)
   agobj eps delta v                        -> bPlus bMinus
   ag eps delta sens                        -> scale left right <usedPlus 0/1> <doublings> <iterations>
   dgobj eps delta <sens> sigma             -> objective <loop iterations> lhs rhs denom
   dg eps delta <sens> half rtol atol       -> scale g0 g1 <expansions> <iterations>
   m_lap eps delta sens                     -> variance
   m_trunc eps delta sens lower upper v     -> bias variance mse
-  m_fold eps delta sens lower upper v      -> bias
+  m_fold eps delta sens lower upper v fold(v) -> bias
   m_bd scale lower upper v                 -> bias variance mse
   m_geom eps <sens>                        -> variance            (sens ≥ 1)
   m_geomscale scale                        -> variance
@@ -76,6 +76,7 @@ def step (_ : Unit) (ws : List String) : Unit × String :=
           s!"ok {showF r.1} {r.2}"
         | "bdf", [e, d, s, diam, sh] => okF [bdDeltaC s diam sh, bdF e d s diam sh]
         | "erf", [x] => okF [HasErf.erf x]
+        | "erfc", [x] => okF [HasErf.erfc x]
         | "agobj", [e, d, v] => okF [bPlus e d v, bMinus e d v]
         | "ag", [e, d, s] =>
           let r := analyticGaussScale e d s
@@ -85,7 +86,7 @@ def step (_ : Unit) (ws : List String) : Unit × String :=
           let b := truncBias e d s lo hi v
           let va := truncVariance e d s lo hi v
           okF [b, va, mse va b]
-        | "m_fold", [e, d, s, lo, hi, v] => okF [foldBias e d s lo hi v]
+        | "m_fold", [e, d, s, lo, hi, v, folded] => okF [foldBias e d s lo hi v folded]
         | "m_bd", [sc, lo, hi, v] =>
           let b := bdBiasOf sc lo hi v
           let va := bdVarianceOf sc lo hi v
